@@ -3,6 +3,9 @@ from __future__ import annotations
 
 import io
 import json
+import os
+import shutil
+import tempfile
 import random
 import re
 
@@ -31,7 +34,9 @@ REQUIRED = {"events.grammar": {"quick": 600, "thorough": 30000}, "events.all_for
             "json.valid": {"quick": 300, "thorough": 15000}, "json.scenario_status": {"quick": 1500, "thorough": 80000},
             "json.step_result": {"quick": 3000, "thorough": 150000}, "json.readback": {"quick": 300, "thorough": 15000},
             "plain.steps": {"quick": 1000, "thorough": 50000}, "progress2.chars": {"quick": 200, "thorough": 10000},
-            "progress3.chars": {"quick": 500, "thorough": 25000}, "json.readback_file": {"quick": 100, "thorough": 300}}
+            "progress3.chars": {"quick": 500, "thorough": 25000}, "json.readback_file": {"quick": 100, "thorough": 300},
+            "factory.own_file_has_own_report": {"quick": 150, "thorough": 6000},
+            "factory.formatter_without_file_writes_stdout": {"quick": 50, "thorough": 2000}}
 REQUIRED_SEEN = {"formatter_active": BUILTINS}
 NSHARDS = {"quick": 16, "thorough": 16}
 DOT = {"passed": ".", "failed": "F", "error": "E", "hook_error": "H", "skipped": "S", "untested": "_",
@@ -404,14 +409,59 @@ def check_progress3(mon, case, obs, text, rec, W, dry_undefined):
         mon.check("progress3.chars", got == want, lambda: W(scenario=sname, got=got, want=want, dry_run_with_undefined=dry_undefined))
 
 
-def run_case(lab, mon, case, names, sample=False):
+def is_subsequence(small, big):
+    it = iter(big)
+    return all(ch in it for ch in small)
+
+
+def run_case(lab, mon, case, names, sample=False, real_files=None):
+    """real_files=k: additionally the REAL factory (behave.formatter._registry.make_formatters) builds the same formatter list
+    with output files for the first k formatters only (the rest write to stdout), as `-f .. -o .. -f ..` does."""
     streams = []
     recs = []
+    real = []
+    tmpdir = tempfile.mkdtemp(prefix="bvm-fmt-") if real_files is not None else None
 
     def formatters(config, st):
         recs[:] = make_formatters(names, config, streams) + [Recorder("recording")]
-        return recs
-    obs = lab.run(case["program"], args=case["args"], formatters=formatters, hook_fault=case.get("hook_fault"))
+        if real_files is None:
+            return recs
+        from behave.formatter._registry import make_formatters as real_make_formatters
+        from behave.formatter.base import StreamOpener
+        config.format = list(names)
+        openers = [StreamOpener(filename=os.path.join(tmpdir, "out%d.txt" % i)) for i in range(real_files)]
+        real[:] = real_make_formatters(config, openers)
+        return real + recs
+    try:
+        obs = lab.run(case["program"], args=case["args"], formatters=formatters, hook_fault=case.get("hook_fault"))
+        if real_files is not None and obs.escaped is None and len(real) == len(names):
+            mon.seen("real_factory_files_of_formatters", "%d/%d" % (real_files, len(names)))
+            W0 = lambda **kw: RB.witness(case, formatters=names, output_files=real_files, **kw)
+            for i in range(real_files):
+                path = os.path.join(tmpdir, "out%d.txt" % i)
+                try:
+                    with open(path, encoding="utf-8") as fh:
+                        content = fh.read()
+                except OSError:
+                    content = None
+                want = streams[i][1].getvalue()
+                if names[i] == "rerun" and not want:
+                    mon.check("factory.own_file_has_own_report", content in (None, ""), lambda: W0(index=i, name=names[i], got=content))
+                else:
+                    mon.check("factory.own_file_has_own_report", content == want,
+                              lambda: W0(index=i, name=names[i], got=(content or "")[:300], want=want[:300]))
+            rest = [j for j in range(real_files, len(names))]
+            out_text = obs.real_out.getvalue()
+            for j in rest:
+                want = streams[j][1].getvalue()
+                if len(rest) == 1:
+                    # other writers (hook error reports, the summary) interleave with the formatter on stdout: its report has
+                    # to be there in order, not contiguously
+                    mon.check("factory.formatter_without_file_writes_stdout", is_subsequence(want, out_text),
+                              lambda: W0(index=j, name=names[j], want=want[:300], stdout=out_text[:300]))
+    finally:
+        if tmpdir:
+            shutil.rmtree(tmpdir, ignore_errors=True)
     pred = runmodel.predict(case["program"], case["cfg"])
     dry_undefined = bool(case["cfg"]["dry_run"]) and any(
         not runmodel.step_defined(s["final"]) for i in pred.instances if pred.selected[i["name"]] for s in i["steps"])
@@ -484,6 +534,11 @@ def run(spec, mon):
             if ks:
                 case = dict(case, hook_fault={"k": rng.choice(ks), "exc": "Exception"})
         run_case(lab, mon, case, names, sample=(i == 0 and spec["shard"] == 0))
+        if i % 3 == 2:
+            # the same run through the real formatter factory: output files for a prefix of the formatter list only
+            names2 = [rng.choice(["json", "plain", "progress", "progress2", "progress3", "json.pretty", "rerun"])
+                      for _ in range(rng.randint(1, 3))]
+            run_case(lab, mon, case, names2, real_files=rng.randint(0, len(names2)))
 
 
 def replay(case, mon):
